@@ -251,7 +251,6 @@ func (e ErrorCode) Status() int {
 		ErrInvalidURI,
 		ErrKeyTooLong,
 		ErrMetadataTooLarge,
-		ErrMethodNotAllowed,
 		ErrMalformedPOSTRequest,
 		ErrMalformedXML,
 		ErrTooManyBuckets:
@@ -259,6 +258,9 @@ func (e ErrorCode) Status() int {
 
 	case ErrRequestTimeTooSkewed:
 		return http.StatusForbidden
+
+	case ErrMethodNotAllowed:
+		return http.StatusMethodNotAllowed
 
 	case ErrInvalidRange:
 		return http.StatusRequestedRangeNotSatisfiable
